@@ -3,34 +3,131 @@ Helper lemmas: closed forms of the header constructors and the normal form of an
 -/
 import Mctp.Model.Encode
 import Mctp.Lemmas.Bitfield
+import Mctp.Lemmas.EncodeBits
 import Mctp.Lemmas.Crc
 namespace Mctp
 
 /-! ### closed forms of the header constructors (the bit loops evaluated once and for all) -/
 
+theorem smbus_b0 : ∀ d : B, SMBusHdr.destSlaveAddr.encPutByte (SMBusHdr.destReadWrite.encPutByte (0:B) 0) d.toNat
+    = (d &&& 0x7F#8) <<< 1 := by
+  apply forall_byte; decide +kernel
+
+theorem smbus_b3 : ∀ a : B, SMBusHdr.sourceReadWrite.encPutByte (SMBusHdr.sourceSlaveAddr.encPutByte (0:B) a.toNat) 1
+    = ((a &&& 0x7F#8) <<< 1) ||| 1#8 := by
+  apply forall_byte; decide +kernel
+
+theorem smbusHeader_eq (a d : B) :
+    smbusHeader a d = [(d &&& 0x7F#8) <<< 1, 0x0F#8, 0#8, ((a &&& 0x7F#8) <<< 1) ||| 1#8] := by
+  unfold smbusHeader
+  simp only []
+  rw [Field.enc_set_byte SMBusHdr.destReadWrite 0 _ _ (by simp) (by decide)]
+  rw [Field.enc_set_byte SMBusHdr.destSlaveAddr 0 _ _ (by simp) (by decide)]
+  rw [Field.enc_set_byte SMBusHdr.commandCode 1 _ _ (by simp) (by decide)]
+  rw [Field.enc_set_byte SMBusHdr.sourceSlaveAddr 3 _ _ (by simp) (by decide)]
+  rw [Field.enc_set_byte SMBusHdr.sourceReadWrite 3 _ _ (by simp) (by decide)]
+  simp only [List.set, List.getD_cons_zero, List.getD_cons_succ]
+  have e1 : SMBusHdr.commandCode.encPutByte 0 15 = 0x0F#8 := by decide +kernel
+  rw [smbus_b0 d, smbus_b3 a, e1]
+  rfl
+
+
+theorem byteCount_b : ∀ x : B, SMBusHdr.byteCount.encPutByte (0:B) x.toNat = x := by
+  apply forall_byte; decide +kernel
+
 theorem smbusHeaderFinal_eq (a d : B) (total : Nat) :
     smbusHeaderFinal a d total =
       [(d &&& 0x7F#8) <<< 1, 0x0F#8, BitVec.ofNat 8 (total - 4), ((a &&& 0x7F#8) <<< 1) ||| 1#8] := by
-  sorry
+  unfold smbusHeaderFinal
+  rw [smbusHeader_eq, Field.enc_set_byte SMBusHdr.byteCount 2 _ _ (by simp) (by decide)]
+  have e : (total - 4) % 256 = (BitVec.ofNat 8 (total - 4)).toNat := by simp
+  simp only [List.set, List.getD_cons_zero, List.getD_cons_succ]
+  rw [e]
+  exact congrArg (fun x => [_, _, x, _]) (byteCount_b _)
+
+theorem tr_b1 : ∀ x : B, TransportHdr.destEndpointId.encPutByte (0:B) x.toNat = x := by
+  apply forall_byte; decide +kernel
+theorem tr_b2 : ∀ x : B, TransportHdr.sourceEndpointId.encPutByte (0:B) x.toNat = x := by
+  apply forall_byte; decide +kernel
 
 theorem transportHeader_eq (a d : B) : transportHeader a d = [0x01#8, d, a, 0xC8#8] := by
-  sorry
+  unfold transportHeader
+  simp only []
+  rw [Field.enc_set_byte TransportHdr.hdrVersion 0 _ _ (by simp) (by decide)]
+  rw [Field.enc_set_byte TransportHdr.destEndpointId 1 _ _ (by simp) (by decide)]
+  rw [Field.enc_set_byte TransportHdr.sourceEndpointId 2 _ _ (by simp) (by decide)]
+  rw [Field.enc_set_byte TransportHdr.som 3 _ _ (by simp) (by decide)]
+  rw [Field.enc_set_byte TransportHdr.eom 3 _ _ (by simp) (by decide)]
+  rw [Field.enc_set_byte TransportHdr.pktSeq 3 _ _ (by simp) (by decide)]
+  rw [Field.enc_set_byte TransportHdr.to 3 _ _ (by simp) (by decide)]
+  rw [Field.enc_set_byte TransportHdr.msgTag 3 _ _ (by simp) (by decide)]
+  simp only [List.set, List.getD_cons_zero, List.getD_cons_succ]
+  have e0 : TransportHdr.hdrVersion.encPutByte (0:B) 1 = 0x01#8 := by decide +kernel
+  have e3 : TransportHdr.msgTag.encPutByte (TransportHdr.to.encPutByte (TransportHdr.pktSeq.encPutByte
+      (TransportHdr.eom.encPutByte (TransportHdr.som.encPutByte (0:B) 1) 1) 0) 1) 0 = 0xC8#8 := by decide +kernel
+  rw [tr_b1 d, tr_b2 a, e0, e3]
 
 theorem bodyHeader_eq (t : MsgType) : bodyHeader t = [t.toByte &&& 0x7F#8] := by
-  sorry
+  cases t <;> decide +kernel
 
 theorem ctrlHeader_eq (rq : Bool) (cmd : Cmd) :
     ctrlHeader rq cmd = [if rq then 0x80#8 else 0x00#8, cmd.toByte] := by
-  sorry
+  cases rq <;> cases cmd <;> decide +kernel
 
+
+
+open EncAux in
 theorem pciHeader_eq (data : BitVec 32) :
     pciHeader data = [(data >>> 8).setWidth 8, data.setWidth 8] := by
-  sorry
+  unfold pciHeader
+  rw [Field.enc_set_eq_loop]
+  have hi : PciFmt.vendorId.encIdxs = [15, 14, 13, 12, 11, 10, 9, 8] ++ [7, 6, 5, 4, 3, 2, 1, 0] := by decide
+  have hp : PciFmt.vendorId.encPos = posMsb0 := rfl
+  rw [hi, hp, setLoop_append, setLoop_chunk posMsb0 1 [15, 14, 13, 12, 11, 10, 9, 8] _ _ (by decide) (by simp),
+    setLoop_chunk posMsb0 0 [7, 6, 5, 4, 3, 2, 1, 0] _ _ (by decide) (by simp)]
+  simp only [List.set, List.getD_cons_zero, List.getD_cons_succ, List.length_cons, List.length_nil]
+  rw [mod256, mod256, chunk1, chunk0]
+  congr 1
+  · apply BitVec.eq_of_toNat_eq
+    simp [BitVec.toNat_setWidth, BitVec.toNat_ushiftRight, Nat.shiftRight_eq_div_pow, PciFmt.vendorId]
+    omega
+  · congr 1
+    apply BitVec.eq_of_toNat_eq
+    simp [BitVec.toNat_setWidth, PciFmt.vendorId]
 
+
+open EncAux in
 theorem ianaHeader_eq (data : BitVec 32) :
     ianaHeader data =
       [(data >>> 24).setWidth 8, (data >>> 16).setWidth 8, (data >>> 8).setWidth 8, data.setWidth 8] := by
-  sorry
+  unfold ianaHeader
+  rw [Field.enc_set_eq_loop]
+  have hi : IanaFmt.vendorId.encIdxs = [31, 30, 29, 28, 27, 26, 25, 24] ++ ([23, 22, 21, 20, 19, 18, 17, 16] ++
+      ([15, 14, 13, 12, 11, 10, 9, 8] ++ [7, 6, 5, 4, 3, 2, 1, 0])) := by decide
+  have hp : IanaFmt.vendorId.encPos = posMsb0 := rfl
+  rw [hi, hp, setLoop_append, setLoop_append, setLoop_append,
+    setLoop_chunk posMsb0 3 [31, 30, 29, 28, 27, 26, 25, 24] _ _ (by decide) (by simp),
+    setLoop_chunk posMsb0 2 [23, 22, 21, 20, 19, 18, 17, 16] _ _ (by decide) (by simp),
+    setLoop_chunk posMsb0 1 [15, 14, 13, 12, 11, 10, 9, 8] _ _ (by decide) (by simp),
+    setLoop_chunk posMsb0 0 [7, 6, 5, 4, 3, 2, 1, 0] _ _ (by decide) (by simp)]
+  simp only [List.set, List.getD_cons_zero, List.getD_cons_succ, List.length_cons, List.length_nil]
+  rw [mod256, mod256, mod256, mod256, chunk3, chunk2, chunk1, chunk0]
+  have hd : data.toNat < 2 ^ 32 := data.isLt
+  congr 1
+  · apply BitVec.eq_of_toNat_eq
+    simp [BitVec.toNat_setWidth, BitVec.toNat_ushiftRight, Nat.shiftRight_eq_div_pow, IanaFmt.vendorId]
+    omega
+  congr 1
+  · apply BitVec.eq_of_toNat_eq
+    simp [BitVec.toNat_setWidth, BitVec.toNat_ushiftRight, Nat.shiftRight_eq_div_pow, IanaFmt.vendorId]
+    omega
+  congr 1
+  · apply BitVec.eq_of_toNat_eq
+    simp [BitVec.toNat_setWidth, BitVec.toNat_ushiftRight, Nat.shiftRight_eq_div_pow, IanaFmt.vendorId]
+    omega
+  congr 1
+  · apply BitVec.eq_of_toNat_eq
+    simp [BitVec.toNat_setWidth, IanaFmt.vendorId]
 
 /-! ### normal form of a packet -/
 
@@ -42,27 +139,128 @@ def packetPre (a d : B) (t : MsgType) (h : Option Bytes) (data : Bytes) : Bytes 
 
 theorem packetBytes_eq (a d : B) (t : MsgType) (h : Option Bytes) (data : Bytes) :
     packetBytes a d t h data = packetPre a d t h data ++ [crc8 (packetPre a d t h data)] := by
-  sorry
+  have e : 4 + 4 + (1 + optLen h + data.length) + 1 - 4 = 6 + optLen h + data.length := by omega
+  have hp : smbusHeaderFinal a d (4 + 4 + (1 + optLen h + data.length) + 1) ++ transportHeader a d ++
+      bodyHeader t ++ optBytes h ++ data = packetPre a d t h data := by
+    rw [smbusHeaderFinal_eq, transportHeader_eq, bodyHeader_eq, e]
+    simp [packetPre]
+  unfold packetBytes
+  simp only []
+  rw [hp]
+
+theorem optBytes_length (h : Option Bytes) : (optBytes h).length = optLen h := by
+  cases h <;> rfl
+
+theorem packetPre_length (a d : B) (t : MsgType) (h : Option Bytes) (data : Bytes) :
+    (packetPre a d t h data).length = 9 + optLen h + data.length := by
+  simp [packetPre, optBytes_length]; omega
 
 theorem packetBytes_length (a d : B) (t : MsgType) (h : Option Bytes) (data : Bytes) :
     (packetBytes a d t h data).length = 10 + optLen h + data.length := by
-  sorry
+  rw [packetBytes_eq, List.length_append, packetPre_length]; simp; omega
 
-/-- `generate_*_packet_bytes` on a buffer that is long enough -/
+theorem splice_length (buf : Bytes) (off : Nat) (src : Bytes) (h : off + src.length ≤ buf.length) :
+    (splice buf off src).length = buf.length := by
+  simp [splice]; omega
+
+theorem writeAt_app (pre rest src : Bytes) (off : Nat) (file : SrcFile) (ho : off = pre.length)
+    (hl : src.length ≤ rest.length) :
+    writeAt (pre ++ rest) off src file = .ok ((pre ++ src) ++ rest.drop src.length) := by
+  subst ho
+  unfold writeAt
+  rw [if_pos (by simp; omega)]
+  simp [splice, List.drop_append]
+
+theorem writeAt_ok_length {buf src : Bytes} {off : Nat} {file : SrcFile} {b : Bytes}
+    (h : writeAt buf off src file = .ok b) : b.length = buf.length := by
+  unfold writeAt at h
+  split at h
+  · cases h; exact splice_length _ _ _ (by assumption)
+  · cases h
+
+theorem writeAt_ne_err {buf src : Bytes} {off : Nat} {file : SrcFile} :
+    writeAt buf off src file ≠ .err () := by
+  unfold writeAt; split <;> simp
+
+
+theorem packetToRaw_ok (sm tr bh : Bytes) (hdr : Option Bytes) (data buf : Bytes)
+    (h1 : sm.length = 4) (h2 : tr.length = 4) (h3 : bh.length = 1)
+    (hbuf : 10 + optLen hdr + data.length ≤ buf.length) :
+    packetToRaw sm tr bh hdr data buf =
+      .ok ((sm ++ tr ++ bh ++ optBytes hdr ++ data) ++ [crc8 (sm ++ tr ++ bh ++ optBytes hdr ++ data)] ++
+        buf.drop (10 + optLen hdr + data.length), 10 + optLen hdr + data.length) := by
+  have hh := optBytes_length hdr
+  unfold packetToRaw
+  have w1 := writeAt_app [] buf sm 0 .proto rfl (by omega)
+  rw [List.nil_append] at w1
+  rw [w1, Out.bind_ok, writeAt_app _ _ tr 4 .proto (by simp [h1]) (by simp; omega), Out.bind_ok,
+    writeAt_app _ _ bh 8 .base (by simp [h1, h2]) (by simp; omega), Out.bind_ok,
+    writeAt_app _ _ (optBytes hdr) 9 .base (by simp [h1, h2, h3]) (by simp; omega), Out.bind_ok,
+    writeAt_app _ _ data (9 + optLen hdr) .base (by simp [h1, h2, h3, hh]; omega) (by simp; omega), Out.bind_ok]
+  simp only [List.nil_append, List.drop_drop]
+  generalize hpre : sm ++ tr ++ bh ++ optBytes hdr ++ data = pre
+  have hpl : pre.length = 9 + optLen hdr + data.length := by
+    rw [← hpre]; simp [h1, h2, h3, hh]; omega
+  have hn : sm.length + tr.length + bh.length + (optBytes hdr).length + data.length =
+      9 + optLen hdr + data.length := by omega
+  rw [hn, if_pos (by simp; omega), ← hpl]
+  have hlt : pre.length < buf.length := by omega
+  rw [List.take_left' rfl, List.drop_eq_getElem_cons hlt, List.set_append_right _ _ (Nat.le_refl _),
+    Nat.sub_self, List.set_cons_zero, hpl]
+  have e : 9 + optLen hdr + data.length + 1 = 10 + optLen hdr + data.length := by omega
+  rw [e]
+  simp
+
+
+theorem packetToRaw_ne_err (sm tr bh : Bytes) (hdr : Option Bytes) (data buf : Bytes) :
+    packetToRaw sm tr bh hdr data buf ≠ .err () := by
+  unfold packetToRaw
+  intro h
+  simp only [Out.bind_eq_err, writeAt_ne_err, false_or] at h
+  obtain ⟨b1, -, b2, -, b3, -, b4, -, b5, -, h⟩ := h
+  split at h <;> cases h
+
+theorem packetToRaw_ok_inv (sm tr bh : Bytes) (hdr : Option Bytes) (data buf : Bytes) (r : Bytes × Nat)
+    (h : packetToRaw sm tr bh hdr data buf = .ok r) : 10 + optLen hdr + data.length ≤ buf.length := by
+  unfold packetToRaw at h
+  simp only [Out.bind_eq_ok] at h
+  obtain ⟨b1, w1, b2, w2, b3, w3, b4, w4, b5, w5, h⟩ := h
+  have l1 := writeAt_ok_length w1
+  have l2 := writeAt_ok_length w2
+  have l3 := writeAt_ok_length w3
+  have l4 := writeAt_ok_length w4
+  have l5 := writeAt_ok_length w5
+  split at h
+  · omega
+  · cases h
+
 theorem genPacket_ok (a d : B) (t : MsgType) (h : Option Bytes) (data buf : Bytes)
     (hfit : 1 + optLen h + data.length ≤ 250) (hbuf : 10 + optLen h + data.length ≤ buf.length) :
     genPacket a d t h data buf =
       .ok (packetBytes a d t h data ++ buf.drop (10 + optLen h + data.length), 10 + optLen h + data.length) := by
-  sorry
+  unfold genPacket
+  simp only []
+  rw [if_neg (by unfold maxBodyLen; omega),
+    packetToRaw_ok _ _ _ _ _ _ (by rw [smbusHeaderFinal_eq]; rfl) (by rw [transportHeader_eq]; rfl)
+      (by rw [bodyHeader_eq]; rfl) hbuf]
+  rfl
 
 theorem genPacket_oversize (a d : B) (t : MsgType) (h : Option Bytes) (data buf : Bytes)
     (hbig : 250 < 1 + optLen h + data.length) : genPacket a d t h data buf = .err () := by
-  sorry
+  unfold genPacket
+  simp only []
+  rw [if_pos (by unfold maxBodyLen; omega)]
 
-/-- on a buffer that is too short the writer panics (slice or index out of range) -/
 theorem genPacket_short (a d : B) (t : MsgType) (h : Option Bytes) (data buf : Bytes)
     (hfit : 1 + optLen h + data.length ≤ 250) (hbuf : buf.length < 10 + optLen h + data.length) :
     ∃ p, genPacket a d t h data buf = .panic p := by
-  sorry
+  unfold genPacket
+  simp only []
+  rw [if_neg (by unfold maxBodyLen; omega)]
+  generalize hr : packetToRaw _ _ _ h data buf = r
+  cases r with
+  | ok r => have := packetToRaw_ok_inv _ _ _ _ _ _ _ hr; omega
+  | err e => cases e; exact absurd hr (packetToRaw_ne_err _ _ _ _ _ _)
+  | panic p => exact ⟨p, rfl⟩
 
 end Mctp
